@@ -1,15 +1,326 @@
 /-
-  C01 (Deribit part) — placeholder while the harness is brought up; real theorems follow.
+  C01 (Deribit part) — what the option market reports at every bar is its cash plus its options at mark (mark
+  rounded to the fee step, as coded).  On the hourly grid the valuation is recomputed; on the closed minutes in
+  between the premium of the hour is reused (positions cannot change there: trades are gated, expiry runs on the
+  grid only) and the cash part is the current one, so deposits and withdrawals made between two hours are
+  reflected; a market that has no valuation yet makes one.
+
+  Model: Demeter/Deribit.lean `getMarketBalance` (repaired code: /repo c97518c current cash on closed bars,
+  7955ce6 first valuation off the hour), Demeter/Deribit/Run.lean (bar loop).  Exact arithmetic.
 -/
 import Proofs.C15
+import Proofs.C16.Run
 namespace Demeter
 open Demeter.Deribit
 
-/-- on an open (on-grid) bar the reported value is cash + options at rounded mark -/
+namespace Deribit
+
+/-- the cached valuation is coherent with the state: it is `cash-at-that-time + premium` and its premium is the
+    value of the *current* positions at the marks of the *current* book -/
+def CInv (c : TokenCfg) (s : DState) : Prop :=
+  ∃ b, s.cache = some b ∧ b.netValue = b.cash + b.premium ∧ b.premium = markValue c s.book s.positions
+
+/-- nothing cached yet, or a coherent cache -/
+def Pre (c : TokenCfg) (s : DState) : Prop := s.cache = none ∨ CInv c s
+
+/-- two books carry the same marks for the same names (the 60 bars of one hour share the hour's rows) -/
+def SameMarks (b1 b2 : List Instr) : Prop :=
+  ∀ n, (findInstr b1 n).map (·.mark) = (findInstr b2 n).map (·.mark)
+
+theorem markValue_sameMarks (c : TokenCfg) {b1 b2 : List Instr} (h : SameMarks b1 b2) (ps : List (String × Position)) :
+    markValue c b1 ps = markValue c b2 ps := by
+  unfold markValue
+  congr 1
+  apply List.map_congr_left
+  intro kp _
+  have := h kp.2.name
+  cases h1 : findInstr b1 kp.2.name <;> cases h2 : findInstr b2 kp.2.name <;> simp_all
+
+theorem freshBalance_spec (c : TokenCfg) (s : DState) :
+    (freshBalance DCtx.exact c s).netValue = s.cash + markValue c s.book s.positions ∧
+    (freshBalance DCtx.exact c s).cash = s.cash ∧
+    (freshBalance DCtx.exact c s).premium = markValue c s.book s.positions := by
+  simp only [freshBalance]
+  have := valueLoop_fst c s.book s.positions 0 0 0
+  rcases hv : valueLoop DCtx.exact c s.book s.positions (0, 0, 0) with ⟨tp, dl, gm⟩
+  rw [hv] at this
+  simp only [] at this
+  simp only [exact_num, NumCtx.exact_add]
+  refine ⟨by rw [this]; ring, trivial, by rw [this]; ring⟩
+
+/-- the heart of the matter: whenever the valuation is recomputed (grid bar / nothing cached) or the cache is
+    coherent, `get_market_balance` reports current cash + options at mark and leaves a coherent cache -/
+theorem gmb_report (c : TokenCfg) (s : DState) (h : s.onGrid = true ∨ Pre c s) :
+    ∃ bal, (getMarketBalance DCtx.exact c s).1 = .ok (.balance (some bal)) ∧
+      bal.netValue = s.cash + markValue c s.book s.positions ∧ bal.cash = s.cash ∧
+      bal.premium = markValue c s.book s.positions ∧
+      CInv c (getMarketBalance DCtx.exact c s).2 ∧
+      (getMarketBalance DCtx.exact c s).2.cash = s.cash ∧ (getMarketBalance DCtx.exact c s).2.positions = s.positions ∧
+      (getMarketBalance DCtx.exact c s).2.book = s.book := by
+  obtain ⟨f1, f2, f3⟩ := freshBalance_spec c s
+  unfold getMarketBalance
+  by_cases hfresh : (s.onGrid || s.cache.isNone) = true
+  · simp only [hfresh, if_true]
+    exact ⟨_, (by first | rfl | trivial), f1, f2, f3, ⟨_, (by first | rfl | trivial), by rw [f1, f2, f3], f3⟩, (by first | rfl | trivial), (by first | rfl | trivial), (by first | rfl | trivial)⟩
+  · simp only [hfresh, Bool.false_eq_true, if_false]
+    have hg : s.onGrid = false := by
+      cases hh : s.onGrid <;> simp_all
+    have hcn : s.cache.isNone = false := by
+      cases hh : s.cache.isNone <;> simp_all
+    rcases h with h | h | ⟨b, hb, hcoh, hprem⟩
+    · rw [hg] at h; exact absurd h (by simp)
+    · rw [h] at hcn; simp at hcn
+    · simp only [hb]
+      split
+      · rename_i hc
+        exact ⟨b, (by first | rfl | trivial), by rw [hcoh, hc, hprem], hc, hprem, ⟨b, hb, hcoh, hprem⟩, (by first | rfl | trivial), (by first | rfl | trivial), (by first | rfl | trivial)⟩
+      · refine ⟨{ b with netValue := DCtx.exact.num.add s.cash b.premium, cash := s.cash }, (by first | rfl | trivial), ?_, (by first | rfl | trivial), hprem,
+          ⟨{ b with netValue := DCtx.exact.num.add s.cash b.premium, cash := s.cash }, (by first | rfl | trivial), (by first | rfl | trivial), hprem⟩, (by first | rfl | trivial), (by first | rfl | trivial), (by first | rfl | trivial)⟩
+        simp only [exact_num, NumCtx.exact_add, hprem]
+
+/-- on a closed bar (off the grid, trade gate shut) no operation can move positions or book, and the cache stays
+    absent-or-coherent -/
+theorem closed_step (c : TokenCfg) (s : DState) (op : Op) (hg : s.onGrid = false) (hf : s.flagOpen = false) (hp : Pre c s) :
+    Pre c (step DCtx.exact c s op).2 ∧ (step DCtx.exact c s op).2.positions = s.positions ∧
+    (step DCtx.exact c s op).2.book = s.book ∧ (step DCtx.exact c s op).2.now = s.now ∧
+    (step DCtx.exact c s op).2.flagOpen = s.flagOpen ∧ (op.isWrite = true → ∃ e, (step DCtx.exact c s op).1 = .error e) := by
+  cases op with
+  | buy r =>
+    have := (C15_trades_need_open_market DCtx.exact c s r hf).1
+    simp only [step, this]
+    exact ⟨hp, (by first | rfl | trivial), (by first | rfl | trivial), (by first | rfl | trivial), (by first | rfl | trivial), fun _ => ⟨_, (by first | rfl | trivial)⟩⟩
+  | sell r =>
+    have := (C15_trades_need_open_market DCtx.exact c s r hf).2
+    simp only [step, this]
+    exact ⟨hp, (by first | rfl | trivial), (by first | rfl | trivial), (by first | rfl | trivial), (by first | rfl | trivial), fun _ => ⟨_, (by first | rfl | trivial)⟩⟩
+  | deposit a =>
+    simp only [step, deposit]
+    split
+    · exact ⟨hp, (by first | rfl | trivial), (by first | rfl | trivial), (by first | rfl | trivial), (by first | rfl | trivial), fun h => by simp [Op.isWrite] at h⟩
+    · split <;> exact ⟨hp, (by first | rfl | trivial), (by first | rfl | trivial), (by first | rfl | trivial), (by first | rfl | trivial), fun h => by simp [Op.isWrite] at h⟩
+  | withdraw a =>
+    simp only [step, withdraw]
+    split
+    · exact ⟨hp, (by first | rfl | trivial), (by first | rfl | trivial), (by first | rfl | trivial), (by first | rfl | trivial), fun h => by simp [Op.isWrite] at h⟩
+    · split <;> exact ⟨hp, (by first | rfl | trivial), (by first | rfl | trivial), (by first | rfl | trivial), (by first | rfl | trivial), fun h => by simp [Op.isWrite] at h⟩
+  | balance =>
+    obtain ⟨_, _, _, _, _, hci, _, hpos, hbook⟩ := gmb_report c s (Or.inr hp)
+    refine ⟨Or.inr hci, hpos, hbook, ?_, ?_, fun h => by simp [Op.isWrite] at h⟩
+    all_goals
+      simp only [step, getMarketBalance]
+      split
+      · rfl
+      · split
+        · rfl
+        · split <;> rfl
+  | update =>
+    simp only [step, update, hg, Bool.false_eq_true, if_false]
+    exact ⟨hp, (by first | rfl | trivial), (by first | rfl | trivial), (by first | rfl | trivial), (by first | rfl | trivial), fun h => by simp [Op.isWrite] at h⟩
+
+theorem closed_ops (c : TokenCfg) (ops : List Op) (s : DState) (hg : s.onGrid = false) (hf : s.flagOpen = false) (hp : Pre c s) :
+    Pre c (runOpsO DCtx.exact c s ops).2.1 ∧ (runOpsO DCtx.exact c s ops).2.1.positions = s.positions ∧
+    (runOpsO DCtx.exact c s ops).2.1.book = s.book ∧ (runOpsO DCtx.exact c s ops).2.1.now = s.now ∧
+    (runOpsO DCtx.exact c s ops).2.2 = false := by
+  induction ops generalizing s with
+  | nil => exact ⟨hp, rfl, rfl, rfl, rfl⟩
+  | cons o os ih =>
+    obtain ⟨h1, h2, h3, h4, h5, h6⟩ := closed_step c s o hg hf hp
+    have hg' : (step DCtx.exact c s o).2.onGrid = false := by unfold DState.onGrid at hg ⊢; rw [h4]; exact hg
+    obtain ⟨i1, i2, i3, i4, i5⟩ := ih (step DCtx.exact c s o).2 hg' (by rw [h5]; exact hf) h1
+    simp only [runOpsO]
+    refine ⟨i1, by rw [i2, h2], by rw [i3, h3], by rw [i4, h4], ?_⟩
+    rw [i5]
+    simp only [Bool.false_or, Bool.and_eq_false_imp]
+    intro hw
+    obtain ⟨e, he⟩ := h6 hw
+    rw [he]; rfl
+
+end Deribit
+
+/-- **open bar**: the reported value is cash + Σ amount × round(mark), recomputed -/
 theorem C01_deribit_open_bar_value (c : TokenCfg) (s : DState) (hg : s.onGrid = true) :
     ∃ b, (getMarketBalance DCtx.exact c s).1 = .ok (.balance (some b)) ∧
-      b.netValue = s.cash + Deribit.markValue c s.book s.positions := by
-  obtain ⟨b, h1, h2, _⟩ := C15_equity c s hg
+      b.netValue = s.cash + markValue c s.book s.positions ∧ b.cash = s.cash := by
+  obtain ⟨b, h1, h2, h3, _⟩ := gmb_report c s (Or.inl hg)
+  exact ⟨b, h1, h2, h3⟩
+
+/-- **first valuation**: a market that has no cached valuation yet values itself, on the grid or not -/
+theorem C01_deribit_first_valuation (c : TokenCfg) (s : DState) (hn : s.cache = none) :
+    ∃ b, (getMarketBalance DCtx.exact c s).1 = .ok (.balance (some b)) ∧
+      b.netValue = s.cash + markValue c s.book s.positions := by
+  obtain ⟨b, h1, h2, _⟩ := gmb_report c s (Or.inr (Or.inl hn))
   exact ⟨b, h1, h2⟩
+
+/-- **closed bar**: the cached premium is kept, the cash is the current one — whatever was deposited or withdrawn
+    since the valuation was cached -/
+theorem C01_deribit_closed_bar_value (cx : DCtx) (c : TokenCfg) (s : DState) (b : Balance) (hg : s.onGrid = false)
+    (hc : s.cache = some b) :
+    ∃ b', (getMarketBalance cx c s).1 = .ok (.balance (some b')) ∧ b'.cash = s.cash ∧ b'.premium = b.premium ∧
+      b'.delta = b.delta ∧ b'.gamma = b.gamma ∧
+      b'.netValue = (if b.cash = s.cash then b.netValue else cx.num.add s.cash b.premium) := by
+  unfold getMarketBalance
+  simp only [hg, hc, Option.isNone_some, Bool.or_self, Bool.false_eq_true, if_false]
+  split
+  · rename_i h; exact ⟨b, rfl, h, rfl, rfl, rfl, rfl⟩
+  · exact ⟨_, rfl, rfl, rfl, rfl, rfl, rfl⟩
+
+/-- **every bar of the loop reports cash + options at mark**: a bar on the hourly grid unconditionally; a closed bar
+    (off the grid, trade gate shut, sharing the hour's marks) whenever the cache it inherits is absent or coherent —
+    and every bar hands a coherent cache on.  `st` is the state the bar leaves. -/
+theorem C01_deribit_bar_reports_value (c : TokenCfg) (s : DState) (b : Bar)
+    (h : (b.now % (Gen.deribitFreqMinutes : Int) == 0) = true ∨
+         ((b.now % (Gen.deribitFreqMinutes : Int) == 0) = false ∧ b.flagOpen = false ∧ SameMarks b.book s.book ∧ Pre c s)) :
+    ∃ bal, (runBar DCtx.exact c s b).balance = some bal ∧
+      bal.netValue = (runBar DCtx.exact c s b).state.cash +
+        markValue c (runBar DCtx.exact c s b).state.book (runBar DCtx.exact c s b).state.positions ∧
+      bal.cash = (runBar DCtx.exact c s b).state.cash ∧
+      CInv c (runBar DCtx.exact c s b).state ∧
+      ((b.now % (Gen.deribitFreqMinutes : Int) == 0) = false → (runBar DCtx.exact c s b).state.positions = s.positions) := by
+  unfold runBar
+  simp only []
+  rcases hro : runOpsO DCtx.exact c (setStatus s b) b.ops with ⟨outs, s2, upd⟩
+  simp only []
+  -- the state handed to the final `get_market_balance`
+  set s3 : DState := if upd = true then setStatus s2 b else s2 with hs3
+  set s4 : DState := update DCtx.exact c s3 with hs4
+  have hnow3 : s3.now = b.now ∨ s3.now = s2.now := by
+    rw [hs3]; split
+    · exact Or.inl rfl
+    · exact Or.inr rfl
+  rcases h with hg | ⟨hg, hfo, hsm, hpre⟩
+  · -- on the grid: recomputed whatever happened in the bar
+    have hs2now : s2.now = b.now := by
+      have : ∀ (ops : List Op) (s0 : DState), (runOpsO DCtx.exact c s0 ops).2.1.now = s0.now := by
+        intro ops
+        induction ops with
+        | nil => intro s0; rfl
+        | cons o os ih =>
+          intro s0
+          simp only [runOpsO]
+          rw [ih]
+          cases o with
+          | buy r =>
+            rcases hb : buy DCtx.exact c s0 r with ⟨oc, s'⟩
+            cases oc with
+            | error e => simp only [step, hb]; rw [buy_err hb]
+            | ok res => obtain ⟨_, _, _, _, _, _, _, _, _, _, _, _, hs'⟩ := buy_ok hb; simp only [step, hb]; rw [hs']
+          | sell r =>
+            rcases hb : sell DCtx.exact c s0 r with ⟨oc, s'⟩
+            cases oc with
+            | error e => simp only [step, hb]; rw [sell_err hb]
+            | ok res => obtain ⟨_, _, _, _, _, _, _, _, _, _, _, _, _, _, _, hs'⟩ := sell_ok hb; simp only [step, hb]; rw [hs']
+          | deposit a => simp only [step, deposit]; split; rfl; split <;> rfl
+          | withdraw a => simp only [step, withdraw]; split; rfl; split <;> rfl
+          | balance => simp only [step, getMarketBalance]; split; rfl; split; rfl; split <;> rfl
+          | update => exact (C16_update_frame DCtx.exact c s0).2.2.2.1
+      have := this b.ops (setStatus s b)
+      rw [hro] at this
+      exact this
+    have hg4 : s4.onGrid = true := by
+      have h3 : s3.now = b.now := by rcases hnow3 with h | h; exact h; rw [h, hs2now]
+      unfold DState.onGrid
+      rw [hs4, (C16_update_frame DCtx.exact c s3).2.2.2.1, h3]; exact hg
+    obtain ⟨bal, h1, h2, h3, _, h5, h6, h7, h8⟩ := gmb_report c s4 (Or.inl hg4)
+    rcases hgm : getMarketBalance DCtx.exact c s4 with ⟨o, s5⟩
+    rw [hgm] at h1 h5 h6 h7 h8
+    simp only [] at h1 h5 h6 h7 h8 ⊢
+    subst h1
+    refine ⟨bal, rfl, by rw [h6, h7, h8]; exact h2, by rw [h6]; exact h3, h5, fun hng => by rw [hg] at hng; exact absurd hng (by simp)⟩
+  · -- closed bar
+    have hgs : (setStatus s b).onGrid = false := by rw [onGrid_setStatus]; exact hg
+    have hpre1 : Pre c (setStatus s b) := by
+      rcases hpre with hn | ⟨b0, hb0, hcoh, hprem⟩
+      · exact Or.inl hn
+      · exact Or.inr ⟨b0, hb0, hcoh, by rw [hprem]; exact (markValue_sameMarks c hsm s.positions).symm⟩
+    obtain ⟨c1, c2, c3, c4, c5⟩ := closed_ops c b.ops (setStatus s b) hgs hfo hpre1
+    rw [hro] at c1 c2 c3 c4 c5
+    simp only [] at c1 c2 c3 c4 c5
+    have hs3eq : s3 = s2 := by rw [hs3, c5]; simp
+    have hg3 : s3.onGrid = false := by
+      rw [hs3eq]; unfold DState.onGrid; rw [c4]; exact hg
+    have hs4eq : s4 = s2 := by rw [hs4, C16_update_off_grid_noop DCtx.exact c s3 hg3, hs3eq]
+    obtain ⟨bal, h1, h2, h3, _, h5, h6, h7, h8⟩ := gmb_report c s4 (Or.inr (hs4eq ▸ c1))
+    rcases hgm : getMarketBalance DCtx.exact c s4 with ⟨o, s5⟩
+    rw [hgm] at h1 h5 h6 h7 h8
+    simp only [] at h1 h5 h6 h7 h8 ⊢
+    subst h1
+    refine ⟨bal, rfl, by rw [h6, h7, h8]; exact h2, by rw [h6]; exact h3, h5, fun _ => by rw [h7, hs4eq, c2]; rfl⟩
+
+
+namespace Deribit
+/-- the bar lists the Actuator produces for an hourly market: every bar is on the grid, or is a closed minute
+    (trade gate shut) whose book carries the marks of the book the market currently shows (same hour) -/
+def GoodBars (c : TokenCfg) : DState → List Bar → Prop
+  | _, [] => True
+  | s, b :: bs =>
+    ((b.now % (Gen.deribitFreqMinutes : Int) == 0) = true ∨
+      ((b.now % (Gen.deribitFreqMinutes : Int) == 0) = false ∧ b.flagOpen = false ∧ SameMarks b.book s.book)) ∧
+    GoodBars c (runBar DCtx.exact c s b).state bs
+
+/-- at every bar of the run the reported value is the bar's final cash + options at mark -/
+def AllReported (c : TokenCfg) : DState → List Bar → Prop
+  | _, [] => True
+  | s, b :: bs =>
+    (∃ bal, (runBar DCtx.exact c s b).balance = some bal ∧
+      bal.netValue = (runBar DCtx.exact c s b).state.cash +
+        markValue c (runBar DCtx.exact c s b).state.book (runBar DCtx.exact c s b).state.positions) ∧
+    AllReported c (runBar DCtx.exact c s b).state bs
+end Deribit
+
+/-- **at every bar of every run** (induction over the bar list): starting with no cached valuation, or a coherent
+    one, the option market's reported value is cash + Σ amount × round(mark) at each bar — whatever the strategy
+    trades on open bars and deposits or withdraws on closed ones -/
+theorem C01_deribit_run_reports_value (c : TokenCfg) (bs : List Bar) (s : DState) (hp : Pre c s) (hg : GoodBars c s bs) :
+    AllReported c s bs := by
+  induction bs generalizing s with
+  | nil => trivial
+  | cons b bs ih =>
+    obtain ⟨hb, hrest⟩ := hg
+    have hbar : (b.now % (Gen.deribitFreqMinutes : Int) == 0) = true ∨
+        ((b.now % (Gen.deribitFreqMinutes : Int) == 0) = false ∧ b.flagOpen = false ∧ SameMarks b.book s.book ∧ Pre c s) := by
+      rcases hb with h | ⟨h1, h2, h3⟩
+      · exact Or.inl h
+      · exact Or.inr ⟨h1, h2, h3, hp⟩
+    obtain ⟨bal, h1, h2, _, hci, _⟩ := C01_deribit_bar_reports_value c s b hbar
+    exact ⟨⟨bal, h1, h2⟩, ih _ (Or.inr hci) hrest⟩
+
+/-! ### non-vacuity: an hour bar with a trade, then two closed minutes with a deposit and a withdrawal -/
+
+namespace Deribit
+def c01Instr : Instr :=
+  { name := "ETH-22SEP23-1650-C", stateOpen := true, kind := .call, strike := 1650, expiry := 30000,
+    mark := 287 / 10000, underlying := 165194 / 100, delta := 52071 / 100000, gamma := 342 / 100000,
+    asks := [⟨29 / 1000, 605, false⟩], bids := [⟨28 / 1000, 51, false⟩] }
+def c01State : DState :=
+  { cash := 3, positions := [], book := [], wallet := [("ETH", 5)], allowNeg := false, actions := [],
+    cache := none, flagOpen := true, now := 0, price := 0, priceDec := true }
+def c01Bars : List Bar :=
+  [ { now := 60, flagOpen := true, book := [c01Instr], price := 1650, priceDec := true,
+      ops := [.buy { name := "ETH-22SEP23-1650-C", amount := 10, priceTok := none, priceUsd := none, mult := none }] },
+    { now := 61, flagOpen := false, book := [c01Instr], price := 1650, priceDec := true, ops := [.deposit 2] },
+    { now := 62, flagOpen := false, book := [c01Instr], price := 1650, priceDec := true,
+      ops := [.withdraw 1, .buy { name := "ETH-22SEP23-1650-C", amount := 1, priceTok := none, priceUsd := none, mult := none }] } ]
+end Deribit
+
+section
+open Deribit
+example : Pre ethCfg c01State := Or.inl rfl
+-- minute 60: 3 − (10 × 0.029 + 0.003) + 10 × 0.0287; minute 61: + 2 deposited; minute 62: − 1 withdrawn, the buy is refused
+example : (runBar DCtx.exact ethCfg c01State c01Bars[0]).balance.map (·.netValue) = some (3 - (29 / 100 + 3 / 1000) + 287 / 1000) := by
+  decide +kernel
+example : (runBar DCtx.exact ethCfg (runBars DCtx.exact ethCfg c01State (c01Bars.take 1)) c01Bars[1]).balance.map (·.netValue) =
+    some (5 - (29 / 100 + 3 / 1000) + 287 / 1000) := by decide +kernel
+example : (runBar DCtx.exact ethCfg (runBars DCtx.exact ethCfg c01State (c01Bars.take 2)) c01Bars[2]).balance.map (·.netValue) =
+    some (4 - (29 / 100 + 3 / 1000) + 287 / 1000) := by decide +kernel
+example : GoodBars ethCfg c01State c01Bars := by
+  have h1 : (runBar DCtx.exact ethCfg c01State c01Bars[0]).state.book = [c01Instr] := by decide +kernel
+  have h2 : (runBar DCtx.exact ethCfg (runBar DCtx.exact ethCfg c01State c01Bars[0]).state c01Bars[1]).state.book = [c01Instr] := by
+    decide +kernel
+  refine ⟨Or.inl (by decide), Or.inr ⟨by decide, rfl, ?_⟩, Or.inr ⟨by decide, rfl, ?_⟩, trivial⟩
+  · show SameMarks [c01Instr] (runBar DCtx.exact ethCfg c01State c01Bars[0]).state.book
+    rw [h1]; intro n; rfl
+  · show SameMarks [c01Instr] (runBar DCtx.exact ethCfg (runBar DCtx.exact ethCfg c01State c01Bars[0]).state c01Bars[1]).state.book
+    rw [h2]; intro n; rfl
+end
 
 end Demeter
